@@ -208,7 +208,10 @@ func (m *monitor) CreateInformers() error {
 				logEntry.Info("got ns, create dynamic ResourceInformers", slog.String("name", nsName))
 				verifsched.Point("monitor.ns.callback", m.Config.Metadata.DebugName)
 
-				varyingInformers, err := m.CreateInformersForNamespace(nsName)
+				// Do not preload the cache for a namespace that appears at run time: objects that
+				// already exist there are new for the hook, let the informer report them as Added
+				// events (buffered until Synchronization is done) instead of caching them silently.
+				varyingInformers, err := m.createInformersForNamespace(nsName, false)
 				if err != nil {
 					logEntry.Error("create ResourceInformers for ns",
 						slog.String("name", nsName),
@@ -322,6 +325,12 @@ func (m *monitor) EnableKubeEventCb() {
 //
 // If namespace is empty, then informer is bounded to all namespaces.
 func (m *monitor) CreateInformersForNamespace(namespace string) ([]*resourceInformer, error) {
+	return m.createInformersForNamespace(namespace, true)
+}
+
+// createInformersForNamespace creates informers bounded to the namespace. Existing objects are
+// loaded into the cache without events if loadExisted is true.
+func (m *monitor) createInformersForNamespace(namespace string, loadExisted bool) ([]*resourceInformer, error) {
 	informers := make([]*resourceInformer, 0)
 	cfg := &resourceInformerConfig{
 		client:  m.KubeClient,
@@ -340,7 +349,7 @@ func (m *monitor) CreateInformersForNamespace(namespace string) ([]*resourceInfo
 	for _, objName := range objNames {
 		informer := newResourceInformer(namespace, objName, cfg)
 
-		if err := informer.createSharedInformer(); err != nil {
+		if err := informer.createSharedInformer(loadExisted); err != nil {
 			return nil, err
 		}
 
